@@ -155,20 +155,20 @@ struct Ctx {
   }
 };
 
-#define VFAIL(ctx, cls, expr)                      \
+#define VFAIL(ctx, cls, ...)                       \
   do {                                             \
     std::ostringstream _vf_o;                      \
-    _vf_o << expr;                                 \
+    _vf_o << __VA_ARGS__;                          \
     (ctx).fail((cls), _vf_o.str());                \
     return;                                        \
   } while (0)
-#define VCHECK(ctx, cond, cls, expr) \
-  do { if (!(cond)) VFAIL(ctx, cls, expr); } while (0)
+#define VCHECK(ctx, cond, cls, ...) \
+  do { if (!(cond)) VFAIL(ctx, cls, __VA_ARGS__); } while (0)
 // like VFAIL but does not return (for use in lambdas / nested helpers); caller tests ctx.failed
-#define VFAILNR(ctx, cls, expr)                    \
+#define VFAILNR(ctx, cls, ...)                     \
   do {                                             \
     std::ostringstream _vf_o;                      \
-    _vf_o << expr;                                 \
+    _vf_o << __VA_ARGS__;                          \
     (ctx).fail((cls), _vf_o.str());                \
   } while (0)
 
